@@ -11,13 +11,13 @@ LEVEL = "exploration"
 RULE = (
     "seeded random constant (u, v, Kx, Ky, Kz) with Kz>0, anisotropic, any direction x domains/grids dx != dy x sources x level sets; "
     "(a) analytic-mode output vs closed form for every retained wavenumber strictly inside the cut-off (halo=0, full and truncated "
-    "modes, dispersion and footprint, multi-level, background); (b) max-norm numeric-analytic error at n, 2n, 4n layers (uniform and "
-    "geometric grids; halo classes, truncated modes, footprint and dispersion, shifted measurement point): E(2n)/E(4n) >= 6 and E(n)/E(4n) >= 20 whenever "
+    "modes, dispersion and footprint, multi-level, background); (b) L2 numeric-analytic error at n, 2n, 4n, 8n layers (uniform and "
+    "geometric grids; halo classes, truncated modes, footprint and dispersion, shifted measurement point): E(2n)/E(8n) >= 36 whenever "
     "the smaller error is above the rounding floor and |T|dz^2/Kz <= 0.5 on the coarsest grid.  non-trivial = (a) >= 8 retained "
     "modes; (b) qualifying refinement triple; distinct = distinct (idx, kind)"
 )
 ASSUMPTIONS = [
-    "ratio threshold 6 separates third order (7.25-9.79 observed on the repaired tree) from second order (3.98-4.83 on the pinned tree)",
+    "gain threshold 36 from 2n to 8n separates third order (>= 57.5 on 1803 qualifying cases of the repaired tree) from second order (<= 23.3 on 894 cases of the pinned tree)",
     "rounding floor for the ratio: smaller error > max(1e-11, 1.3e-11 e^G); refinement cases drawn with G <= 10",
 ]
 MIN_NONTRIVIAL = {"quick": 120, "thorough": 8000}
@@ -136,7 +136,7 @@ def order(case):
     frac = float(rng.choice([1.0, 0.5, 0.25]))  # output height as a fraction of the column (a node of every refinement)
     errs = []
     calls = 0
-    for mult in (1, 2, 4):
+    for mult in (1, 2, 4, 8):
         n = n0 * mult
         zz = gen.vgrid(gridk, float(z[0]), float(z[-1]), n)
         one = np.ones(n + 1)
@@ -148,28 +148,31 @@ def order(case):
         _, cn, fn = solve.solve(S2, q0, L, **kw)
         _, ca, fa = solve.solve(S2, q0, L, analytic=True, **kw)
         calls += 2
-        e = max(solve.relerr(cn, ca, scale=float(np.max(np.abs(ca))) or 1.0), solve.relerr(fn, fa, scale=float(np.max(np.abs(fa))) or 1.0))
+        # L2 norm over the field: a max-norm error can cross zero at one cell and make a single ratio meaningless
+        e = max(float(np.linalg.norm(cn - ca)) / (float(np.linalg.norm(ca)) or 1.0), float(np.linalg.norm(fn - fa)) / (float(np.linalg.norm(fa)) or 1.0))
         errs.append(e)
     floor = max(1e-11, 1.3e-11 * float(np.exp(St["G"])))
     viol = []
     r1 = errs[0] / errs[1] if errs[1] > 0 else float("inf")
     r2 = errs[1] / errs[2] if errs[2] > 0 else float("inf")
-    qualifies = errs[2] > floor
+    r3 = errs[2] / errs[3] if errs[3] > 0 else float("inf")
+    qualifies = errs[3] > floor
     resid = {}
     if qualifies:
-        resid["order_min_ratio_inverse"] = 1.0 / min(r1, r2)
-        # third order: the finer pair of grids is in the asymptotic regime (ratio ~8 >= 6); the coarser pair may still be
-        # pre-asymptotic (observed 3.6-4.6 with |T|dz^2/Kz just below 0.5) but the two steps together must gain >= 20 (second order: 16)
-        if r2 < 6 or r1 * r2 < 20:
-            viol.append({"what": "numerical_mode_not_third_order", "errors": errs, "ratios": (r1, r2), "grid": gridk, "n0": n0, "footprint": fp,
+        resid["order_2n_to_8n_gain_inverse"] = 1.0 / (r2 * r3)
+        # third order: from 2n to 8n layers the error must fall by more than 36 (third order: 64; calibrated on 1803 qualifying
+        # triples of the repaired tree: >= 57.5; second order, 894 triples of the pinned tree: <= 23.3).  The coarsest step n -> 2n
+        # is not judged: it is pre-asymptotic when |T|dz^2/Kz is just below 0.5.
+        if r2 * r3 < 36:
+            viol.append({"what": "numerical_mode_not_third_order", "errors": errs, "ratios": (r1, r2, r3), "grid": gridk, "n0": n0, "footprint": fp,
                          "meas_pt": mp, "resolved": res0, "setup": desc})
     # a misregistration between the two branches is an O(1) difference, whatever the order
     # (a large coarse-grid error that converges away is not a misregistration)
-    if errs[2] > 0.02 and errs[2] > errs[0] / 3:
+    if errs[3] > 0.02 and errs[3] > errs[0] / 3:
         viol.append({"what": "numeric_and_analytic_branch_disagree", "errors": errs, "grid": gridk, "n0": n0, "footprint": fp, "meas_pt": mp,
                      "resolved": res0, "setup": desc})
     b = {f"b:grid:{gridk}": 1, f"b:halo:{St['halo_class']}": 1, f"b:modes:{St['mode_class']}": 1, "b:footprint" if fp else "b:dispersion": 1,
          "b:qualifies" if qualifies else "b:below_rounding_floor": 1}
     return {"evals": 3, "nontrivial": bool(qualifies), "sig": f"b|{case['idx']}", "buckets": b, "resid": resid,
             "counters": {"solver_calls": calls, "refinement_triples": 1}, "violations": viol,
-            "sample": {"setup": desc, "errors": errs, "ratios": (r1, r2), "n0": n0, "grid": gridk, "footprint": fp}}
+            "sample": {"setup": desc, "errors": errs, "ratios": (r1, r2, r3), "n0": n0, "grid": gridk, "footprint": fp}}
